@@ -1,5 +1,9 @@
 (* RunC20.v — Tie B entry point for C20: the status and handle-variable rows of a program of
    C calls, evaluated on the model (CApi.capi_step) and diffed with the real libmla.so. *)
+From MLA Require Import Limit.
+From MLAGen Require Src.
+(* executable entry points: the production value of BINCODE_MAX_DESERIALIZE (the same in both flavours), file-local *)
+#[local] Instance RUN_LIMIT : Limit := MLAGen.Src.BINCODE_MAX_DESERIALIZE_prod.
 From MLA Require Import Base Stream Inst Blocks Writer CApi.
 From MLAGen Require Src.
 Open Scope N_scope.
